@@ -397,7 +397,7 @@ func (s *sim) vio(prop, rule, facts, msg string) {
 //go:norace
 func (s *sim) call(name string, fn func()) {
 	s.hint()
-	s.k.Spawn(name, 0, nil, func() {
+	t := s.k.Spawn(name, 0, nil, func() {
 		// the application hands the constructed object to its goroutines with
 		// proper synchronisation: one edge from the constructor, none between
 		// the operations themselves
@@ -407,7 +407,12 @@ func (s *sim) call(name string, fn func()) {
 			kern.HBRelease(&s.pub)
 		}
 	})
-	s.k.Quiesce()
+	// Only the call itself runs until it returns ("... when the triggering call
+	// returns"): anything it leaves to a goroutine or a zero-delay timer has not
+	// happened when Current() is read next. observe() lets the rest run.
+	if !s.k.RunOnly(t) {
+		s.k.Quiesce()
+	}
 	s.kernelFailure()
 }
 
@@ -786,6 +791,15 @@ func (s *sim) releaseAll() {
 //
 //go:norace
 func (s *sim) observe(what string, api bool) {
+	s.observe0(what, api)
+	if !s.stop {
+		s.k.Quiesce()
+		s.kernelFailure()
+	}
+}
+
+//go:norace
+func (s *sim) observe0(what string, api bool) {
 	if s.stop {
 		return
 	}
